@@ -29,24 +29,24 @@ func (d Decisions) Keys() []string {
 
 // DecCfg is the swarm-varied policy used when drawing.
 type DecCfg struct {
-	VisitP    float64 `json:"visit_p"`     // probability that a visit digit is non-identity
-	PoolMode  string  `json:"pool_mode"`   // lifo | random | oldest | miss | mix
-	PoolOther float64 `json:"pool_other"`  // mix: probability of a non-LIFO hit
-	PoolMiss  float64 `json:"pool_miss"`   // mix: probability of a forced miss
-	PutDrop   float64 `json:"put_drop"`    // probability a Put is dropped
+	VisitP    float64 `json:"visit_p"`    // probability that a visit digit is non-identity
+	PoolMode  string  `json:"pool_mode"`  // lifo | random | oldest | miss | mix
+	PoolOther float64 `json:"pool_other"` // mix: probability of a non-LIFO hit
+	PoolMiss  float64 `json:"pool_miss"`  // mix: probability of a forced miss
+	PutDrop   float64 `json:"put_drop"`   // probability a Put is dropped
 }
 
 // Dec implements simrt.Decider.
 type Dec struct {
-	Cfg    DecCfg
-	rng    *Rng
-	Replay Decisions // non-nil: replay (benign default when exhausted)
-	Rec    Decisions // what was consumed
-	pos    map[string]int
-	Phase  string              // prefix of every stream ("h/", "p/", "f/" ...)
-	Forced map[string][]int    // full stream name -> forced choices (not recorded)
-	fpos   map[string]int
-	Benign map[string]bool     // phases in which every choice is the default
+	Cfg        DecCfg
+	rng        *Rng
+	Replay     Decisions // non-nil: replay (benign default when exhausted)
+	Rec        Decisions // what was consumed
+	pos        map[string]int
+	Phase      string           // prefix of every stream ("h/", "p/", "f/" ...)
+	Forced     map[string][]int // full stream name -> forced choices (not recorded)
+	fpos       map[string]int
+	Benign     map[string]bool // phases in which every choice is the default
 	NonDefault int
 }
 
